@@ -3,6 +3,7 @@ package rtr
 import (
 	"encoding/binary"
 	"fmt"
+	"hash/crc32"
 	"net"
 	"os"
 	"path/filepath"
@@ -191,7 +192,38 @@ func c08Mutate(rt *rapid.T, raw []byte) ([]byte, string) {
 			b = nb
 		}
 	case "stun":
-		b = append([]byte{0x00, 0x01, 0x00, byte(rapid.IntRange(0, 40).Draw(rt, "stunLen")), 0x21, 0x12, 0xa4, 0x42}, rapid.SliceOfN(rapid.Byte(), 0, 40).Draw(rt, "stunBody")...)
+		// structured STUN message: 20-byte header, 0-4 attributes with small lengths, padding
+		// present, partial or missing, message length consistent or not, optional valid fingerprint
+		typ := rapid.SampledFrom([][]byte{{0, 1}, {0, 1}, {1, 1}, {0x3f, 0xff}}).Draw(rt, "stunType")
+		msg := append([]byte{typ[0], typ[1], 0, 0, 0x21, 0x12, 0xa4, 0x42}, rapid.SliceOfN(rapid.Byte(), 12, 12).Draw(rt, "txid")...)
+		kind = "stun"
+		for i := rapid.IntRange(0, 4).Draw(rt, "stunAttrs"); i > 0; i-- {
+			at := rapid.SampledFrom([]uint16{0x8028, 0x0001, 0x0020, 0x8020, 0x8022, 0x0006}).Draw(rt, "attrType")
+			al := rapid.IntRange(0, 13).Draw(rt, "attrLen")
+			msg = append(msg, byte(at>>8), byte(at), 0, byte(al))
+			msg = append(msg, rapid.SliceOfN(rapid.Byte(), al, al).Draw(rt, "attrVal")...)
+			pad := (4 - al%4) % 4
+			switch rapid.IntRange(0, 3).Draw(rt, "padding") {
+			case 0:
+				pad = 0
+			case 1:
+				pad = rapid.IntRange(0, pad).Draw(rt, "partialPad")
+			}
+			if pad != (4-al%4)%4 {
+				kind = "stun_unpadded"
+			}
+			msg = append(msg, make([]byte, pad)...)
+		}
+		if rapid.Bool().Draw(rt, "fingerprint") {
+			binary.BigEndian.PutUint16(msg[2:], uint16(len(msg)-20+8))
+			fp := crc32.ChecksumIEEE(msg) ^ 0x5354554e
+			msg = append(msg, 0x80, 0x28, 0, 4, byte(fp>>24), byte(fp>>16), byte(fp>>8), byte(fp))
+		} else if rapid.Bool().Draw(rt, "consistentLen") {
+			binary.BigEndian.PutUint16(msg[2:], uint16(len(msg)-20))
+		} else {
+			binary.BigEndian.PutUint16(msg[2:], uint16(rapid.IntRange(0, 80).Draw(rt, "stunLen")))
+		}
+		b = msg
 	}
 	return b, kind
 }
@@ -238,7 +270,7 @@ func TestC08(t *testing.T) {
 		"Non-trivial: input that passes header decoding (reaches a forward, deliver or slow-path decision).")
 	defer rec.Flush(t)
 	rec.Assume("processor objects are created per input (no state leaks between inputs)", "inputs up to the 9000-byte router buffer")
-	rec.Require("forwarded", "delivered", "scmp_emitted", "discarded", "slow_path_no_answer", "mut_meta", "mut_hdrlen", "mut_nested_scmp", "mut_stun", "link_internal", "link_sibling", "kind_epic", "kind_onehop", "auth_on", "valid_mac_odd_interface")
+	rec.Require("forwarded", "delivered", "scmp_emitted", "discarded", "slow_path_no_answer", "mut_meta", "mut_hdrlen", "mut_nested_scmp", "mut_stun", "link_internal", "link_sibling", "kind_epic", "kind_onehop", "auth_on", "valid_mac_odd_interface", "path_30_plus_hops", "mut_stun_unpadded")
 	rapid.Check(t, func(rt *rapid.T) {
 		auth := rapid.Bool().Draw(rt, "auth")
 		l := c08Lab(auth)
@@ -249,6 +281,25 @@ func TestC08(t *testing.T) {
 		// authentic hop field with a nonsensical interface: the validated hop names interface 0 (or an
 		// unknown one) on one side and still carries a valid MAC - what a host can build from the last
 		// hop field of any segment that ends in this AS.
+		// long paths: header lengths up to the maximum (64 hop fields) move the SCMP reply
+		// construction (quote truncation, headroom for the reversed path and the authenticator)
+		// through all its branches
+		longPath := ""
+		if rapid.IntRange(0, 3).Draw(rt, "longPath") == 0 {
+			last := len(k.lens) - 1
+			room := min(63-k.lens[last], 64-k.total())
+			if room > 0 {
+				extra := rapid.IntRange(1, room).Draw(rt, "extraHops")
+				for i := 0; i < extra; i++ {
+					k.hops = append(k.hops, path.HopField{ExpTime: 63, ConsIngress: uint16(600 + i), ConsEgress: uint16(700 + i)})
+				}
+				k.lens[last] += extra
+				longPath = "long_path"
+				if k.total() >= 30 {
+					longPath = "path_30_plus_hops"
+				}
+			}
+		}
 		oddIf := ""
 		if rapid.IntRange(0, 5).Draw(rt, "oddInterface") == 0 {
 			hf := &k.hops[k.vHop]
@@ -291,9 +342,15 @@ func TestC08(t *testing.T) {
 				}
 			}
 		}
+		if (mk == "stun" || mk == "stun_unpadded") && rapid.IntRange(0, 3).Draw(rt, "stunElsewhere") != 0 {
+			linkSel = 0 // STUN is served on the internal link
+		}
 		labels := []string{"mut_" + mk, "kind_" + kind}
 		if oddIf != "" {
 			labels = append(labels, oddIf)
+		}
+		if longPath != "" {
+			labels = append(labels, longPath)
 		}
 		if auth {
 			labels = append(labels, "auth_on")
